@@ -487,6 +487,7 @@ func buildEvidence(p *Program, prop, tier string, seed int64, st *RunStats, hs [
 		"forks":                         st.Forks,
 		"reach_labels":                  reach,
 		"known_finding_hits":            st.KnownHits,
+		"paths_decided_by_uninterpreted_predicate_not_replayed": st.NoReplay,
 		"inconclusive":                  inconclusive,
 		"exit":                          exit,
 		"exhaustive":                    exit == 0 && !st.Truncated,
